@@ -1,5 +1,10 @@
 //go:build verif
 
+// the key exchange of a TLS handshake (and every other crypto API that is handed an explicit random source) reads the
+// seeded global source directly instead of "maybe one byte, then the rest" (randutil.MaybeReadByte), which would make the
+// amount of randomness consumed per handshake a coin flip
+//go:debug cryptocustomrand=0
+
 package main
 
 import (
